@@ -36,11 +36,12 @@ theorem FI_debt_route (N : Nat) (links : List (Nat × List Tgt)) (hwf : TreeWF N
     (hwk : ∀ key t, getL links key = [t] → WK lg' (gw ws' key) (getL g.fifo (rkeyOf t)) key
       (if key = srcKey then g.roots.drop g.resp.length
        else if key / 64 = n then writesOf rs1 (key % 64) else writesOf (ss (key / 64)).reqs (key % 64))
-      (heldD D0 ss g.sinks t)) :
+      (heldD D0 ss g.sinks t))
+    (hordk : OrdAt lg' k g.next) :
     FI N links (upd ss n ⟨(ss n).inbox, (flushS rs1).1, cur'⟩) D0
       (putNode { g with log := lg', writers := ws' } n nd' (flushS rs1).2) := by
   have h1 := FI_debt_node N links hwf ss g h n nd0 nd' rs1 cur' lg' k ws' hn hr' hheld hx ho hlb hsepN hsepS
-    hreq hcur hinb hsq hwq0 hwk
+    hreq hcur hinb hsq hwq0 hwk hordk
   have hnN : n < N := (h.nodesLen n).mp (by rw [hn]; rfl)
   have h2 := FI_route N links hwf _ n (Nat.lt_of_lt_of_le hnN hwf.small) (flushT rs1).2 _ _ h1 (by simp [updD])
   rw [updD_updD, updD_D0] at h2
@@ -169,6 +170,7 @@ theorem FI_write_rej (N : Nat) (links : List (Nat × List Tgt)) (hwf : TreeWF N 
         · simp only [e2, if_true, NodeSpec.writesOf_append, writesOf, List.append_nil]
         · simp only [e2, if_false]
     rw [← this]; exact hk
+  · exact ordAt_none lg' q.id g.next hqu.2.1 hqu.1
   · simp [heldOf, hc, curRead]
 
 /-- the writer `w` of node `n` hands the node the oldest answer in its queue -/
@@ -242,6 +244,7 @@ theorem FI_answer (N : Nat) (links : List (Nat × List Tgt)) (hwf : TreeWF N lin
             rw [m3 _ this]
           · simp only [e2, if_false]
       rw [← this]; exact hk
+  · exact ordAt_none g.log g.next g.next hub.2.1 hub.1
   · simp only [heldOf, m4]
 
 end Uniflow.FlowInv
